@@ -81,7 +81,7 @@ def reset_pdk_registry(_pdk):
             if isinstance(v, (set, list)) and all(ismod(x) for x in v):
                 v.clear()
                 found = True
-            elif isinstance(v, dict) and all(ismod(x) for x in v.values()) and all(isinstance(x, str) for x in v):
+            elif isinstance(v, dict) and all(ismod(x) for x in v.values()):  # (whatever the keys: names, ids)
                 v.clear()
                 found = True
             elif ismod(v):
